@@ -80,6 +80,27 @@ Qed.
 Lemma c_version1_ok : codec_ok c_version1.
 Proof. apply c_refine_ok. apply c_be_ok. cbn. lia. Qed.
 
+Lemma c_altblock_ok : codec_ok c_altblock.
+Proof.
+  unfold c_altblock. apply c_iso_ok; [intros []; reflexivity|iso_tac|].
+  repeat apply c_pair_ok; try apply c_sbl_ok; apply c_be_ok; cbn; lia.
+Qed.
+Lemma c_keystones_ok : codec_ok c_keystones.
+Proof.
+  unfold c_keystones. apply c_iso_ok; [intros []; reflexivity|intros []; reflexivity|].
+  apply c_pair_ok; apply c_sbl_ok.
+Qed.
+Lemma c_ctxinfo_ok : codec_ok c_ctxinfo.
+Proof.
+  unfold c_ctxinfo. apply c_iso_ok; [intros []; reflexivity|intros []; reflexivity|].
+  apply c_pair_ok; [apply c_be_ok; cbn; lia|apply c_keystones_ok].
+Qed.
+Lemma c_authctx_ok : codec_ok c_authctx.
+Proof.
+  unfold c_authctx. apply c_iso_ok; [intros []; reflexivity|intros []; reflexivity|].
+  apply c_pair_ok; [apply c_ctxinfo_ok|apply c_bytes_ok; vm_compute; discriminate].
+Qed.
+
 Section EntityProofs.
   Variable addr_ok : Z -> list byte -> bool.
 
